@@ -109,6 +109,20 @@ const D = {
   selfAssignArrow: { tpl: (i) => `var sw${i} = x;\nconst aw${i} = () => (sw${i} = <Comp>{sw${i}}</Comp>);\n__out.k${i} = () => aw${i}();`, jsx: true },
   selfAssignTwice: { tpl: (i) => `function st${i}(p) { p = <Comp>{p}</Comp>; p = <B>{p}</B>; return p; }\n__out.k${i} = () => st${i}(x);`, jsx: true },
   selfAssignTwiceMod: { tpl: (i) => `var sm${i} = x;\nsm${i} = <Comp>{sm${i}}</Comp>;\nsm${i} = <B>{sm${i}}</B>;\n__out.k${i} = () => sm${i};`, jsx: true },
+  // element-level state that must not outlive its element (tag classification, `type` of an input, text fast paths, attribute-valued JSX)
+  memberNativeTag: { tpl: (i) => `__out.k${i} = () => <nsx.div id="m">t{x}</nsx.div>;`, jsx: true },
+  nativeChildren:  { tpl: (i) => `__out.k${i} = () => <div id="n">t{x}</div>;`, jsx: true },
+  typeCheckboxNoDir: { tpl: (i) => `__out.k${i} = () => <input type="checkbox" id={x} />;`, jsx: true },
+  typeDynNoDir:    { tpl: (i) => `__out.k${i} = () => <input type={c1} />;`, jsx: true },
+  tplChildComp:    { tpl: (i) => `__out.k${i} = () => <Comp>{\`a \${x}\`}</Comp>;`, jsx: true },
+  tplChildFrag:    { tpl: (i) => `__out.k${i} = () => <>{\`t \${x}\`}</>;`, jsx: true },
+  tplChildEl:      { tpl: (i) => `__out.k${i} = () => <p>{\`e \${x}\`}</p>;`, jsx: true },
+  singleChildEl:   { tpl: (i) => `__out.k${i} = () => <ul>{g()}</ul>;`, jsx: true },
+  nestedSingle:    { tpl: (i) => `__out.k${i} = () => <p><Comp>{\`n \${x}\`}</Comp></p>;`, jsx: true },
+  attrBareJsx:     { tpl: (i) => `__out.k${i} = () => <Comp icon=<i/>>{xx}</Comp>;`, jsx: true },
+  dirThenBareJsx:  { tpl: (i) => `__out.k${i} = () => <Comp v-foo={x} icon=<B /> />;`, jsx: true },
+  selfAssignArrowParam: { tpl: (i) => `const ap${i} = (p) => (p = <Comp>{p}</Comp>);\n__out.k${i} = () => ap${i}(x);`, jsx: true },
+  selfAssignArrowLet: { tpl: (i) => `let sq${i} = x;\nconst aq${i} = () => (sq${i} = <B>{sq${i}}</B>);\n__out.k${i} = () => aq${i}();`, jsx: true },
   pragmaLike:  { tpl: (i) => `const pr${i} = <div class={c1}>{xx}</div>;\n__out.k${i} = () => pr${i};`, jsx: true },
 };
 
@@ -146,7 +160,7 @@ const T_DC = new Set(['dcProps', 'dcIface', 'dcIdentOpts', 'dcEmits', 'dcDefault
 function itemHasJsx(item) { return item.t ? T_JSX.has(item.t) : item.d ? !!D[item.d].jsx : true; }
 function itemAugmentable(item) { return !!item.t && T_DC.has(item.t); }
 
-const PRELUDE = 'const { Comp, B, s1, h1, c1, x, y, c, f, g } = __env.bound;\nconst idf = (v) => v;\nclass Box { constructor(v) { this.v = v; } }\nlet xx = __env.bound.xx;\nlet yy = __env.bound.yy;\nlet mv = __env.mv0;\n';
+const PRELUDE = 'const { Comp, B, nsx, s1, h1, c1, x, y, c, f, g } = __env.bound;\nconst idf = (v) => v;\nclass Box { constructor(v) { this.v = v; } }\nlet xx = __env.bound.xx;\nlet yy = __env.bound.yy;\nlet mv = __env.mv0;\n';
 
 function renderHistory(items, ts) {
   return (ts ? TS_PRELUDE : '') + PRELUDE + items.map((it, i) => itemSrc(it, i)).join('\n') + '\n';
@@ -158,7 +172,7 @@ function makeEnv() {
   const comp = (n) => names.reg({ __component: n }, n);
   const vn = (t) => ({ __v_isVNode: true, type: t, props: null, children: null });
   const bound = {
-    Comp: comp('Comp'), B: comp('B'), s1: { id: 's1id', class: 's1c' }, h1: names.reg(() => {}, 'h1'), c1: 'c1cls',
+    Comp: comp('Comp'), B: comp('B'), nsx: { div: comp('nsx.div') }, s1: { id: 's1id', class: 's1c' }, h1: names.reg(() => {}, 'h1'), c1: 'c1cls',
     x: 'xval', y: 'yval', xx: vn('xxnode'), yy: 'yyval', c: true,
     f: names.reg(() => vn('fres'), 'f'), g: names.reg(() => 'gres', 'g'),
   };
